@@ -58,5 +58,20 @@ JReachable(e) ==
       ref == IF e.depth = 0 THEN ReachSet(DfaEdges(D), {e.q}) ELSE ReachSet(DfaEdges(D), succ)
   IN BadY("reachable_set", ToSet(e.res) # ref)
 
+(* fresh names.  fresh_state(Q, hint): hint1, hint2, ... - the first one not in Q.  "plain_first": the   *)
+(* variants that try the bare hint first (AutomatonBuilder._fresh_state).  IdentifierGenerator: hint<index>  *)
+(* and the index advances by one.                                                                             *)
+RECURSIVE LeastFresh(_, _, _)
+LeastFresh(S, hint, k) == LET nm == hint \o ToString(k) IN IF nm \notin S THEN nm ELSE LeastFresh(S, hint, k + 1)
+JFresh(e) ==
+  LET S == ToSet(e.used)
+      want == IF e.plain_first /\ e.hint \notin S THEN e.hint ELSE LeastFresh(S, e.hint, 1)
+  IN BadY("fresh_not_used", e.res \in S)
+     \cup BadY("fresh_is_first_free_name", e.res # want)
+JIdGen(e) ==
+  BadY("generator_counts_up",
+       \E i \in DOMAIN e.res : e.res[i] # e.hints[i] \o ToString(e.start + i - 1))
+  \cup BadY("generator_index_advances", e.index_after # e.start + Len(e.res))
+
 JPushPop(e) == BadY("is_push_pop", e.res # IsPushPop(PdaOf(e.pda)))
 =============================================================================
